@@ -301,6 +301,14 @@ func RunParent(p *Prop, tier string, seed int64, exe string, onlyCase int) int {
 				}
 				// abnormal end: which case was running?
 				running := lastStarted(filepath.Join(dir, "journal"))
+				// exit status 3 is only produced by the child's own watchdog: never
+				// report it as a crash, even if the result line with the flag was lost
+				if ee, ok := werr.(*exec.ExitError); ok && ee.ExitCode() == 3 && !hang {
+					hang = true
+					if running >= 0 {
+						last = running
+					}
+				}
 				if hang {
 					// watchdog fired in case `last`
 					if p.HangIsViolation {
